@@ -669,4 +669,141 @@ theorem updateE_within (mx : Nat) (t : Table) (c : Cond) (sets : List (Nat × Va
   | some e => rfl
   | none => simp only [filterE_within mx c hd, scan_filter_eq_matching]
 
+/-! ## the row slab evolves independently of the indexes -/
+
+theorem batchFold_rows : ∀ (rows : List (List Value)) (t1 t2 : Table) (a1 a2 : List Nat),
+    t1.rows = t2.rows → t1.schema = t2.schema →
+    (rows.foldl batchStep (t1, a1)).1.rows = (rows.foldl batchStep (t2, a2)).1.rows ∧
+    (rows.foldl batchStep (t1, a1)).1.schema = (rows.foldl batchStep (t2, a2)).1.schema := by
+  intro rows
+  induction rows with
+  | nil => intro t1 t2 a1 a2 hr hs; exact ⟨hr, hs⟩
+  | cons v vs ih =>
+    intro t1 t2 a1 a2 hr hs
+    rw [List.foldl_cons, List.foldl_cons]
+    apply ih
+    · simp only [insertRaw, hr]
+    · simp only [insertRaw, hs]
+
+theorem updateFold_schema (sets : List (Nat × Value)) : ∀ (targets : List RowE) (t : Table),
+    (targets.foldl (updateOne sets) t).schema = t.schema := by
+  intro targets; induction targets with
+  | nil => intro t; rfl
+  | cons r rs ih => intro t; rw [List.foldl_cons, ih]; rfl
+
+theorem deleteFold_schema : ∀ (targets : List RowE) (t : Table),
+    (targets.foldl deleteOne t).schema = t.schema := by
+  intro targets; induction targets with
+  | nil => intro t; rfl
+  | cons r rs ih => intro t; rw [List.foldl_cons, ih]; rfl
+
+theorem indexOp_schema (t : Table) (col : ColRef) (op : Op)
+    (hop : op = .createHash col ∨ op = .createOrd col ∨ op = .dropHash col ∨ op = .dropOrd col) :
+    (applyOp t op).schema = t.schema := by
+  rcases hop with h | h | h | h <;> subst h <;> simp only [applyOp]
+  · cases h : createHashIndex t col with
+    | error e => rfl
+    | ok t' =>
+      simp only
+      unfold createHashIndex at h
+      split at h
+      · cases h
+      · split at h
+        · cases h
+        · simp only [Except.ok.injEq] at h; subst h; rfl
+  · cases h : createOrdIndex t col with
+    | error e => rfl
+    | ok t' =>
+      simp only
+      unfold createOrdIndex at h
+      split at h
+      · cases h
+      · split at h
+        · cases h
+        · simp only [Except.ok.injEq] at h; subst h; rfl
+  · cases h : dropHashIndex t col with
+    | error e => rfl
+    | ok t' =>
+      simp only
+      unfold dropHashIndex at h
+      split at h
+      · cases h
+      · simp only [Except.ok.injEq] at h; subst h; rfl
+  · cases h : dropOrdIndex t col with
+    | error e => rfl
+    | ok t' =>
+      simp only
+      unfold dropOrdIndex at h
+      split at h
+      · cases h
+      · simp only [Except.ok.injEq] at h; subst h; rfl
+
+/-- a data operation acts on (schema, rows) alone: two states with the same slab and schema (whatever
+    their indexes) have the same slab and schema afterwards; an index operation leaves both untouched -/
+theorem applyOp_rows_congr (t1 t2 : Table) (op : Op) (hr : t1.rows = t2.rows) (hs : t1.schema = t2.schema) :
+    (applyOp t1 op).rows = (if op.isIndexOp then t2.rows else (applyOp t2 op).rows) ∧
+    (applyOp t1 op).schema = (if op.isIndexOp then t2.schema else (applyOp t2 op).schema) := by
+  cases op with
+  | insert vals =>
+    simp only [Op.isIndexOp, applyOp, Bool.false_eq_true, if_false]
+    unfold insert
+    rw [hs]
+    by_cases hl : vals.length ≠ t2.schema.length
+    · rw [if_pos hl, if_pos hl]; exact ⟨hr, hs⟩
+    · rw [if_neg hl, if_neg hl]
+      cases validateRow t2.schema vals with
+      | some e => exact ⟨hr, hs⟩
+      | none => simp only [hr, and_self]
+  | update c sets =>
+    simp only [Op.isIndexOp, applyOp, update, hs]
+    cases validateSets t2.schema sets with
+    | some e => exact ⟨hr, hs⟩
+    | none =>
+      simp only [Bool.false_eq_true, if_false]
+      have hm : matching t1 c = matching t2 c := by unfold matching; rw [hr]
+      rw [updateFold_rows, updateFold_rows, updateFold_schema, updateFold_schema, hm, hr]
+      exact ⟨rfl, hs⟩
+  | delete c =>
+    simp only [Op.isIndexOp, applyOp, delete, Bool.false_eq_true, if_false]
+    have hm : matching t1 c = matching t2 c := by unfold matching; rw [hr]
+    rw [deleteFold_rows, deleteFold_rows, deleteFold_schema, deleteFold_schema, hm, hr]
+    exact ⟨rfl, hs⟩
+  | batchInsert rows =>
+    simp only [Op.isIndexOp, applyOp, batchInsert, hs, Bool.false_eq_true, if_false]
+    cases validateBatch t2.schema rows with
+    | some e => exact ⟨hr, hs⟩
+    | none => exact batchFold_rows rows t1 t2 [] [] hr hs
+  | createHash col =>
+    simp only [Op.isIndexOp, if_true]
+    exact ⟨(indexOp_rows t1 col _ (Or.inl rfl)).trans hr, (indexOp_schema t1 col _ (Or.inl rfl)).trans hs⟩
+  | createOrd col =>
+    simp only [Op.isIndexOp, if_true]
+    exact ⟨(indexOp_rows t1 col _ (Or.inr (Or.inl rfl))).trans hr, (indexOp_schema t1 col _ (Or.inr (Or.inl rfl))).trans hs⟩
+  | dropHash col =>
+    simp only [Op.isIndexOp, if_true]
+    exact ⟨(indexOp_rows t1 col _ (Or.inr (Or.inr (Or.inl rfl)))).trans hr, (indexOp_schema t1 col _ (Or.inr (Or.inr (Or.inl rfl)))).trans hs⟩
+  | dropOrd col =>
+    simp only [Op.isIndexOp, if_true]
+    exact ⟨(indexOp_rows t1 col _ (Or.inr (Or.inr (Or.inr rfl)))).trans hr, (indexOp_schema t1 col _ (Or.inr (Or.inr (Or.inr rfl)))).trans hs⟩
+
+theorem run_rows_strip : ∀ (ops : List Op) (t1 t2 : Table), t1.rows = t2.rows → t1.schema = t2.schema →
+    (ops.foldl applyOp t1).rows = ((ops.filter (fun o => !o.isIndexOp)).foldl applyOp t2).rows ∧
+    (ops.foldl applyOp t1).schema = ((ops.filter (fun o => !o.isIndexOp)).foldl applyOp t2).schema := by
+  intro ops
+  induction ops with
+  | nil => intro t1 t2 hr hs; exact ⟨hr, hs⟩
+  | cons op ops ih =>
+    intro t1 t2 hr hs
+    rw [List.foldl_cons, List.filter_cons]
+    obtain ⟨h1, h2⟩ := applyOp_rows_congr t1 t2 op hr hs
+    cases hi : op.isIndexOp with
+    | true =>
+      simp only [hi, if_true] at h1 h2
+      simp only [Bool.not_true, Bool.false_eq_true, if_false]
+      exact ih _ _ h1 h2
+    | false =>
+      simp only [hi, Bool.false_eq_true, if_false] at h1 h2
+      simp only [Bool.not_false, if_true, List.foldl_cons]
+      exact ih _ _ h1 h2
+
 end Neumann.Rel
